@@ -380,6 +380,20 @@ func runC16(c *fw.Ctx, idx int) fw.Result {
 				}
 				res.Count("records_compared", len(recs))
 			}
+			if lo.blanks >= 1 && lo.blanks <= 3 {
+				// empty lines: whether they are skipped or refused is not specified, but it is the
+				// same in every reader
+				ne := 0
+				for _, o := range outs {
+					if o.err != nil {
+						ne++
+					}
+				}
+				res.Count("blank_line_layouts_compared_across_readers", 1)
+				if ne != 0 && ne != len(outs) {
+					res.Fail("layout:blank-lines:readers-disagree", fmt.Sprintf("the readers disagree on an alignment with empty lines (%s): accept/reject pattern %s for %v", feat, pattern, readers), files, nil)
+				}
+			}
 			// fifth reader: identical variants output across layouts (skipped for very long
 			// records: variants decodes the reference with a quadratic string concatenation)
 			if W > 60000 {
